@@ -7,6 +7,10 @@ from ..core import CTX, attempt, held, violated, undefined, same_array, short, s
 from .. import gen, contracts, rl
 
 PROP = "C16"
+LEVEL_TEXT = 'numpy on the decoded operands, exact incl. dtype; boundary alignments constructed (identical / coincident / nested / interleaved / constant / derived-from-first) and exhaustively enumerated for lengths <=4 (quick) / <=6 (thorough); reductions incl. of derived encodings; operands unchanged. Exploration.'
+LEVEL_NOTE = "trusts numpy 2.x, CPython (copy.copy, slice semantics, big ints) and the reference model in rtmon/props/c16.py; decides the executions it produces, nothing more"
+TECHNIQUE = 'runtime monitoring: reference-model oracle (numpy on decoded operands) + exhaustive enumeration of boundary alignments'
+DESIGN_REF = "DESIGN.md sections 0, 5 (C16), 7"
 RULE = ("case = (length, boundary set A, boundary set B built as identical / coincident / nested / interleaved / constant / independent, dtypes, values, "
         "ufunc | scalar operand and side | reduction | histogram | concatenate); oracle = numpy on decoded operands; distinct = hash of the case; "
         "non-trivial = length >= 2 and at least one operand with >= 2 runs")
